@@ -62,4 +62,51 @@ theorem open_flags_injective : (openFlagReal.map (·.2)).Nodup := by decide
     any other mask fails here. -/
 theorem exit_status_mask_known : exitStatusMask = none ∨ exitStatusMask = some 255 := by decide
 
+/-- ★ Now that D18 is fixed the mask is demanded, not only reported: the simulator's `Exit::exit` keeps exactly
+    the bits the pivot's `Signal.exit` keeps — `status & 0xFF` = `n % 256` for every status. -/
+theorem exit_status_mask_is_8bit :
+    exitStatusMask = some 255 ∧
+    ∀ (p : Signal.Proc) (n : Nat), p.alive = true → (Signal.exit p n).status = .exited (n &&& 255) := by
+  refine ⟨by decide, ?_⟩
+  intro p n h
+  have : n &&& 255 = n % 256 := Nat.and_two_pow_sub_one_eq_mod n 8
+  simp [Signal.exit, h, this]
+
+/-! ## what a forked child takes from its parent -/
+
+/-- How the pivots treat each field of the simulator's `struct Process` at a fork.  `inherit`: the child has
+    the parent's value (`Signal.fork`: mask and dispositions; working directory, file creation mask, limits and
+    descriptors are what the subshell fragments of the shell leg compare); `fresh`: the child starts with the
+    value of a new process (`Signal.fork`: no pending signal, nothing recorded as caught, running);
+    `unobserved`: nothing C19 compares depends on it. -/
+def forkPolicy : List (String × String) :=
+  [("blocked_signals", "inherit"), ("dispositions", "inherit"), ("fds", "inherit"), ("umask", "inherit"),
+   ("cwd", "inherit"), ("resource_limits", "inherit"), ("pgid", "inherit"),
+   ("pending_signals", "fresh"), ("caught_signals", "fresh"), ("caught_signals_count", "fresh"),
+   ("state", "fresh"), ("state_has_changed", "fresh"), ("ppid", "fresh"),
+   ("uid", "unobserved"), ("euid", "unobserved"), ("gid", "unobserved"), ("egid", "unobserved"),
+   ("resumption_awaiters", "unobserved"), ("signal_wakers", "unobserved"), ("last_exec", "unobserved")]
+
+/-- ★ `Process::fork_from`, as re-read from /repo on every run, copies exactly what the pivots say a child
+    inherits: every field of `struct Process` is classified (a new field must be classified before the check
+    passes), every `inherit` field is taken from the parent — signal mask, dispositions, descriptors, working
+    directory, file creation mask, resource limits (divergences D8-D10 were three of these missing) — and no
+    `fresh` field is: in particular not the pending signals and not the record of caught signals (the seeded
+    round-2 change `..parent.clone()` made the child inherit both). -/
+theorem fork_inheritance_matches_code :
+    (∀ f, f ∈ processFields → (lookupS forkPolicy f).isSome = true) ∧
+    (∀ f, f ∈ processFields → lookupS forkPolicy f = some "inherit" → f ∈ forkInherited) ∧
+    (∀ f, f ∈ processFields → lookupS forkPolicy f = some "fresh" → f ∉ forkInherited) ∧
+    (∀ f, f ∈ forkInherited → f ∈ processFields) ∧
+    (∀ r, r ∈ forkPolicy → r.1 ∈ processFields) := by decide
+
+/-- the rows of the policy that `Signal.fork` implements, stated of the pivot itself -/
+theorem fork_policy_is_what_the_pivot_does (p : Signal.Proc) :
+    lookupS forkPolicy "blocked_signals" = some "inherit" ∧ (Signal.fork p).mask = p.mask ∧
+    lookupS forkPolicy "dispositions" = some "inherit" ∧ (Signal.fork p).disp = p.disp ∧
+    lookupS forkPolicy "pending_signals" = some "fresh" ∧ (Signal.fork p).pending = Signal.Proc.init.pending ∧
+    lookupS forkPolicy "caught_signals" = some "fresh" ∧ (Signal.fork p).caught = Signal.Proc.init.caught ∧
+    lookupS forkPolicy "state" = some "fresh" ∧ (Signal.fork p).status = Signal.Proc.init.status :=
+  ⟨by decide, rfl, by decide, rfl, by decide, rfl, by decide, rfl, by decide, rfl⟩
+
 end YashModel.Kernel
